@@ -211,12 +211,20 @@ def honest(sim, j):
     kex = KEXES[j % len(KEXES)]
     cipher = tuple(wiretap.CIPHERS)[(j // len(KEXES)) % len(wiretap.CIPHERS)]
     link = Link(sim, latency=((0.0, 0.01)[sim.choose(2)],) * 2)
-    p = ssh.tapped_pair(sim, link=link)
+    # one run in three: one side behaves like OpenSSH and puts the strict marker into its INITIAL KEXINIT only; the
+    # other (unmodified) side has to stay in strict mode through the re-keys all the same
+    once = (None, None, "client", "server")[sim.choose(4)]
+    from paramiko import Transport
+    pkw = {}
+    if once:
+        pkw["client_cls" if once == "client" else "server_cls"] = ssh.strict_marker_only_initially(Transport)
+    p = ssh.tapped_pair(sim, link=link, **pkw)
     comp = ("none", "none", "zlib", "zlib@openssh.com")[sim.choose(4)]
     for t in (p.tc, p.ts):
         ssh.configure(t, kex=kex, cipher=cipher, comp=comp)
-    nrekey = sim.choose(3)
-    desc = {"honest": True, "kex": kex, "cipher": cipher, "compression": comp, "rekeys": nrekey}
+    nrekey = sim.choose(3) if not once else 1 + sim.choose(2)
+    desc = {"honest": True, "kex": kex, "cipher": cipher, "compression": comp, "rekeys": nrekey,
+            "strict_marker_only_in_initial_kexinit_of": once}
 
     def probe_seqno():
         # each side answers an unassigned message type with UNIMPLEMENTED(sequence number it counted for that packet):
